@@ -100,11 +100,36 @@ def _bool_call(fn, a, prefix):
     return {prefix + "ok": False, prefix + "r": False, prefix + "exc": res.get("err", "non-boolean")}
 
 
-def call_str(a):
+BECH32M_CONSTANT = 0x2BC830A3
+
+
+def _warm(a):
+    """History twin: before a string is judged, hand it to the library's generic Bech32 layer under both checksum constants and
+    to the BIP173-only mode of the decoder - what other code in the same process may have done.  Outcomes are ignored (these
+    calls are not C06's subject and their signatures are internals); what the property demands is that the judged answers do
+    not depend on them (a verification cache keyed without the constant would)."""
+    import bits
+    try:
+        from bits.bips import bip173
+    except Exception:  # noqa
+        return
+    parsed = run_call(lambda: bip173.parse_bech32(a))
+    if "ok" in parsed and isinstance(parsed["ok"], tuple) and len(parsed["ok"]) == 2:
+        hrp, data = parsed["ok"]
+        for const in (1, BECH32M_CONSTANT):
+            run_call(lambda: bip173.assert_valid_bech32(hrp, data, constant=const))
+    fn = getattr(bits, "decode_segwit_addr", None)
+    if fn is not None:
+        run_call(lambda: fn(a, False))
+
+
+def call_str(a, warm=True):
     import bits
 
     a = bytes(a)
     out = {}
+    if warm and sum(a) % 3:          # two thirds of the strings are judged after the warm-up, one third cold
+        _warm(a)
     res = run_call(_decode_and_validate, a)
     if "ok" in res:
         hrp, ver, prog = res["ok"]
